@@ -536,8 +536,39 @@ def auxStepArray (rem : Bytes) : Outcome (Bytes × Nat) :=
       let f ← sliceTo "bam.parseAux:aux[i:i+j:i+j]" rem w
       pure (f, w)
 
+/-- the pair loop of `bam.decodeHex`: `for k := 0; k < len(digits); k += 2 { hi, lo := unhex(digits[k]),
+unhex(digits[k+1]); if hi < 0 || lo < 0 { return fmt.Errorf("%q", digits[k:k+2]) }; a[3+k/2] = … }`
+with `alen = len(a)`. `bam.unhex` is a `switch` on byte ranges with the values of `hexVal`. The bytes
+written so far are collected in `out`; running out of `fuel` is a `panic` of the model. -/
+def decodeHexLoop (digits : Bytes) (alen : Nat) : (fuel : Nat) → (k : Nat) → Bytes → Outcome Bytes
+  | 0, _, _ => .panic "bam.decodeHex:model out of fuel"
+  | fuel + 1, k, out =>
+    if digits.length ≤ k then ok out
+    else do
+      let c0 ← index "bam.decodeHex:digits[k]" digits k
+      let c1 ← index "bam.decodeHex:digits[k+1]" digits (k + 1)
+      match hexVal c0, hexVal c1 with
+      | some hi, some lo =>
+        if 3 + k / 2 < alen then decodeHexLoop digits alen fuel (k + 2) (out ++ [UInt8.ofNat (hi * 16 + lo)])
+        else .panic "bam.decodeHex:a[3+k/2]"
+      | _, _ => do
+        let _ ← slice "bam.decodeHex:digits[k:k+2]" digits k (k + 2)
+        err
+
+/-- `bam.decodeHex(f)` (repair fixes/C05-2: a stored `H` value is its hex digits): `f[3:]`, the parity
+check, `make(sam.Aux, 3+len(digits)/2)`, `copy(a, f[:3])`, then the pair loop -/
+def decodeHexGo (f : Bytes) : Outcome Bytes := do
+  let digits ← sliceFrom "bam.decodeHex:f[3:]" f 3
+  if digits.length % 2 ≠ 0 then err
+  else do
+    let alen ← makeLen "bam.decodeHex:make(sam.Aux, 3+len(digits)/2)" ((3 + digits.length / 2 : Nat) : Int)
+    let hd ← sliceTo "bam.decodeHex:f[:3]" f 3
+    let body ← decodeHexLoop digits alen (digits.length / 2 + 1) 0 []
+    pure (hd ++ body)
+
 /-- one step of the walker on `rem = aux[i:]`: the field and the number of bytes consumed.
-With the repairs fixes/C11-7 (bounds), C11-8 (array subtype), C11-9 (zero byte inside the tag). -/
+With the repairs fixes/C11-7 (bounds), C11-8 (array subtype), C11-9 (zero byte inside the tag),
+fixes/C05-2 (`H` digits decoded). -/
 def auxStep (rem : Bytes) : Outcome (Bytes × Nat) := do
   let t ← index "bam.parseAux:aux[i+2]" rem 2
   let j := jumpOf t
@@ -551,6 +582,10 @@ def auxStep (rem : Bytes) : Outcome (Bytes × Nat) := do
     if t = 90 ∨ t = 72 then do
       let z ← ofOption (indexZero rem)
       if z < 3 then err
+      else if t = 72 then do
+        let f ← sliceTo "bam.parseAux:aux[i:i+j]" rem z
+        let a ← decodeHexGo f
+        pure (a, z + 1)
       else do
         let f ← sliceTo "bam.parseAux:aux[i:i+j:i+j]" rem z
         pure (f, z + 1)
